@@ -6,6 +6,7 @@ package main
 import (
 	"fmt"
 	"os"
+	"path/filepath"
 
 	"verif/harness/internal/checks"
 	"verif/harness/internal/core"
@@ -30,6 +31,9 @@ func main() {
 		case "--replay":
 			i++
 			replay = os.Args[i]
+			if !filepath.IsAbs(replay) {
+				replay = filepath.Join(core.VerifDir, replay)
+			}
 		}
 	}
 	fn, ok := checks.Registry[id]
